@@ -155,6 +155,54 @@ func init() {
 		return nil, false
 	}
 
+	// sync.Once: done flag at Once.done.v (field 0, field 1)
+	RegisterIntrinsic("(*sync.Once).Do", func(x *Exec, s *State, c *CallCtx) Value {
+		p := c.Args[0].(*PtrVal)
+		d0, ok := x.fieldAddr(s, p, 0)
+		if !ok {
+			return nil
+		}
+		d1, ok := x.fieldAddr(s, d0.(*PtrVal), 1)
+		if !ok {
+			return nil
+		}
+		v, ok := x.load(s, d1.(*PtrVal), nil)
+		if !ok {
+			return nil
+		}
+		done := x.tb.Not(x.tb.Eq(v.(*Term), x.tb.BV(32, 0)))
+		if done.IsTrue() {
+			return nil
+		}
+		if !done.IsFalse() {
+			// already done on some merged paths: those continue without calling f
+			ds := s.clone()
+			if x.constrain(ds, done) {
+				df := ds.top()
+				df.PC++
+				x.push(ds)
+			}
+			if !x.constrain(s, x.tb.Not(done)) {
+				return nil
+			}
+		}
+		x.store(s, d1.(*PtrVal), x.tb.BV(32, 1))
+		fv := c.Args[1].(*FuncVal)
+		var live []FuncAlt
+		for _, a := range fv.Alts {
+			if a.Fn != nil && !a.G.IsFalse() {
+				live = append(live, a)
+			}
+		}
+		if len(live) != 1 {
+			x.fail("sync.Once.Do with %d function targets", len(live))
+		}
+		// the frame of f runs before the caller continues (the caller's pc is advanced by the
+		// call machinery after this intrinsic returns)
+		x.pushFrame(s, live[0].Fn, nil, live[0].Bindings, nil)
+		return nil
+	})
+
 	// ---- regexp: exact on concrete subjects (the compiled real regexp is used) ----
 	RegisterIntrinsic("regexp.MustCompile", func(x *Exec, s *State, c *CallCtx) Value {
 		pat, ok := x.concreteStr(c.Args[0].(*StrVal))
